@@ -12,7 +12,7 @@ from vt.props import common as cm
 
 PID = "C01"
 RULE = (
-    "Hypothesis-generated worker scenarios on the virtual-time loop: 1-9 messages (well-formed async/sync tasks, a task of a shared broker, a task registered only after the receiver was built, "
+    "Hypothesis-generated worker scenarios on the virtual-time loop: 1-9 messages (well-formed async/sync tasks, a task of a shared broker, a task registered only after the receiver was built, a task registered while the worker is already running (messages for it taken earlier are unknown-task messages), "
     "malformed payloads of 9 shapes, unknown task), arrival instants on a 0.05 s grid plus points on/around the "
     "receiver's 0.3 s poll grid, durations 0-3 s, A in 1..4|None, P in 0..4, N in None|1..5, stop instant anywhere "
     "or absent, stream ending or blocking. Oracle over the trace of the real Receiver.listen(): per well-formed "
@@ -45,12 +45,13 @@ def scenario() -> Any:
         "A": st.sampled_from([1, 1, 2, 3, 4, None]),
         "P": st.integers(0, 4),
         "N": st.sampled_from([None, None, 1, 2, 3, 4, 5]),
-        "msgs": st.lists(cm.message(kinds=("async", "async", "async", "sync", "bad", "unknown", "shared", "late")), min_size=1, max_size=9),
+        "msgs": st.lists(cm.message(kinds=("async", "async", "async", "sync", "bad", "unknown", "shared", "late", "dyn", "dyn")), min_size=1, max_size=9),
         "stop": cm.times(),
         "has_stop": st.booleans(),
         "ends": st.booleans(),
         "burst": st.sampled_from([False, False, True]),
         "ack_type": st.sampled_from(["when_received", "when_executed", "when_saved"]),
+        "register_at": cm.times(),      # instant at which the task `dyntask` gets registered on the running worker
     }).map(fin)
 
 
@@ -81,8 +82,17 @@ def run_case(sc: Dict[str, Any]) -> Outcome:
         out.add("C01.c", "listen() raised " + res["listen_exc"])
     enters = _enters(tr)
     taken = [m for t, kind, m, kw in tr if kind == "take"]
+    ireg = next((n for n, e in enumerate(tr) if e[1] == "registered"), None)
+    takepos = {e[2]: n for n, e in enumerate(tr) if e[1] == "take"}
     for i in taken:
         n = enters.get(i, 0)
+        if specs[i]["kind"] == "dyn":
+            # known only from its registration on: taken before -> legitimately skipped (at most once, though);
+            # taken after -> exactly once like any other task.  Same instant: either.
+            if ireg is None or takepos[i] < ireg or abs(tr[takepos[i]][0] - tr[ireg][0]) < 1e-9:
+                if n > 1:
+                    out.add("C01.b", f"message {i} executed {n} times")
+                continue
         if wh.is_good(specs[i]):
             if n == 0:
                 out.add("C01.a", f"message {i} was taken at the broker but its task function never ran")
@@ -120,7 +130,9 @@ def run_case(sc: Dict[str, Any]) -> Outcome:
     out.nontrivial = bool(inflight or mixed)
     out.classes = [c for c, f in (("inflight_at_decision", inflight), ("mixed_valid_skipped", mixed),
                                   ("take_after_decision", lookahead_done), ("has_N", sc.get("N")),
-                                  ("has_stop", sc.get("stop") is not None), ("returned", res["returned"])) if f]
+                                  ("has_stop", sc.get("stop") is not None), ("returned", res["returned"]),
+                                  ("dyn_before_and_after_registration", ireg is not None and any(specs[i]["kind"] == "dyn" and takepos[i] < ireg for i in taken)
+                                   and any(specs[i]["kind"] == "dyn" and takepos[i] > ireg for i in taken))) if f]
 
     # metamorphic C01.d
     if sc.get("N") is None and sc.get("stop") is None and sc.get("ends") and mixed and not out.violations:
